@@ -99,3 +99,53 @@ def shape_matches(actual: list[str], allowed: list[str]) -> bool:
         if ok:
             return True
     return False
+
+
+# --------------------------------------------------------------------------- named-field placement (ISO 14229-1 message tables)
+# Where the standard puts each named parameter of a message, written in the provenance notation of the byte-layout analyser
+# (bits<pdu[k].hi..lo> = bit range of PDU byte k, from_bytes(pdu[a:b]) = big-endian integer, i = index of a repeated group).
+# The W∘R identity only proves that serialiser and parser agree with each other; two fields of equal width swapped in both
+# directions still round-trip.  This table pins the field *names* to the ISO positions.  Transcribed from ISO 14229-1:2020
+# tables (request / positive response message definitions) and confirmed against the pinned tree by reading.
+_ALFID1 = {"memory_address": "from_bytes(pdu[2:bits<pdu[1].3..0>+2])",
+           "memory_size": "from_bytes(pdu[bits<pdu[1].3..0>+2:bits<pdu[1].3..0>+bits<pdu[1].7..4>+2])"}
+_UPDOWN = {"compression_method": "bits<pdu[1].7..4>", "encryption_method": "bits<pdu[1].3..0>",
+           "memory_address": "from_bytes(pdu[3:bits<pdu[2].3..0>+3])",
+           "memory_size": "from_bytes(pdu[bits<pdu[2].3..0>+3:bits<pdu[2].3..0>+bits<pdu[2].7..4>+3])"}
+_NUM_DTC = {"dtc_status_availability_mask": "bits<pdu[2].7..0>", "dtc_format_identifier": "bits<pdu[3].7..0>", "dtc_count": "from_bytes(pdu[4:])"}
+_DTC_LIST = {"dtc_status_availability_mask": "bits<pdu[2].7..0>",
+             "dtc_and_status_record": "dict[from_bytes(pdu[i+3:i+6]): bits<pdu[i+6].7..0> for i=range(0,L-3,4)]"}
+_ROUTINE = {"routine_identifier": "from_bytes(pdu[2:4])"}
+_XFER = {"length_format_identifier": "bits<pdu[1].7..4>", "max_number_of_block_length": "from_bytes(pdu[2:])"}
+FIELD_PLACEMENT: dict[str, dict[str, str]] = {
+    # requests
+    "CommunicationControlRequest": {"control_type": "bits<pdu[1].6..0>", "communication_type": "bits<pdu[2].7..0>"},
+    "ReadMemoryByAddressRequest": _ALFID1,
+    "WriteMemoryByAddressRequest": _ALFID1,
+    "DefineByIdentifierRequest": {"dynamically_defined_data_identifier": "from_bytes(pdu[2:4])",
+                                  "source_data_identifiers": "list[from_bytes(pdu[i:i+2]) for i=range(4,L,4)]",
+                                  "positions_in_source_data_record": "list[bits<pdu[i+2].7..0> for i=range(4,L,4)]",
+                                  "memory_sizes": "list[bits<pdu[i+3].7..0> for i=range(4,L,4)]"},
+    "DefineByMemoryAddressRequest": {"dynamically_defined_data_identifier": "from_bytes(pdu[2:4])",
+                                     "memory_addresses": "list[from_bytes(pdu[i:i+bits<pdu[4].3..0>]) for i=range(5,L,bits<pdu[4].3..0>+bits<pdu[4].7..4>)]",
+                                     "memory_sizes": "list[from_bytes(pdu[i+bits<pdu[4].3..0>:i+bits<pdu[4].3..0>+bits<pdu[4].7..4>]) for i=range(5,L,bits<pdu[4].3..0>+bits<pdu[4].7..4>)]"},
+    "WriteDataByIdentifierRequest": {"data_identifier": "from_bytes(pdu[1:3])"},
+    "InputOutputControlByIdentifierRequest": {"data_identifier": "from_bytes(pdu[1:3])"},
+    "ReportDTCExtDataRecordByDTCNumberRequest": {"dtc_mask_record": "from_bytes(pdu[2:5])", "dtc_ext_data_record_number": "bits<pdu[5].7..0>"},
+    "StartRoutineRequest": _ROUTINE, "StopRoutineRequest": _ROUTINE, "RequestRoutineResultsRequest": _ROUTINE,
+    "RequestDownloadRequest": _UPDOWN, "RequestUploadRequest": _UPDOWN,
+    "TransferDataRequest": {"block_sequence_counter": "bits<pdu[1].7..0>"},
+    # responses
+    "ECUResetResponse": {"reset_type": "bits<pdu[1].7..0>", "power_down_time": "bits<pdu[2].7..0>"},
+    "WriteDataByIdentifierResponse": {"data_identifier": "from_bytes(pdu[1:3])"},
+    "WriteMemoryByAddressResponse": _ALFID1,
+    "ReportNumberOfDTCByStatusMaskResponse": _NUM_DTC, "ReportNumberOfMirrorMemoryDTCByStatusMaskResponse": _NUM_DTC,
+    "ReportNumberOfEmissionsRelatedOBDDTCByStatusMaskResponse": _NUM_DTC,
+    "ReportDTCByStatusMaskResponse": _DTC_LIST, "ReportMirrorMemoryDTCByStatusMaskResponse": _DTC_LIST,
+    "ReportEmissionsRelatedOBDDTCByStatusMaskResponse": _DTC_LIST, "ReportSupportedDTCResponse": _DTC_LIST,
+    "ReportDTCWithPermanentStatusResponse": _DTC_LIST,
+    "InputOutputControlByIdentifierResponse": {"data_identifier": "from_bytes(pdu[1:3])"},
+    "StartRoutineResponse": _ROUTINE, "StopRoutineResponse": _ROUTINE, "RequestRoutineResultsResponse": _ROUTINE,
+    "RequestDownloadResponse": _XFER, "RequestUploadResponse": _XFER,
+    "TransferDataResponse": {"block_sequence_counter": "bits<pdu[1].7..0>"},
+}
